@@ -85,13 +85,13 @@ def instances(tier, seed):
     return out
 
 
-def sym_table(ctx, names):
+def sym_table(ctx, names, tag=''):
     tab = {}
     for n in names:
         row = []
         for j in range(11):
             lo = 0.01
-            v = ctx.real(f"{n.replace('+', 'p')}_{j}", lo, 1000)
+            v = ctx.real(f"{tag}{n.replace('+', 'p')}_{j}", lo, 1000)
             row.append(v)
         tab[n] = tuple(row)
     return tab
@@ -203,6 +203,23 @@ def body(ctx, p):
                 RU.UFF4MOF = tab
                 eps, sig = RU.pair_coeffs('C_3')
                 ctx.require('pair coefficients: epsilon = D1, sigma = x1 * 2^(-1/6)', AND(EQ(eps, tab['C_3'][3]), EQ(sig, tab['C_3'][2] * (2 ** (-1. / 6.)))))
+                # HISTORY: every look-up is evaluated on the table as it is at that moment, whatever earlier look-ups returned and whatever
+                # the caller did with the values handed out before (rescaling them in place for a unit conversion, ...)
+                first = RU.pair_coeffs('C_3')
+                try:
+                    first[0] = first[0] * 2 + 1
+                    first[1] = first[1] * 0 - 1
+                except TypeError:
+                    pass            # an immutable result cannot be disturbed by the caller
+                eps2, sig2 = RU.pair_coeffs('C_3')
+                ctx.require('pair coefficients of a later look-up do not depend on what the caller did with an earlier result',
+                            AND(EQ(eps2, tab['C_3'][3]), EQ(sig2, tab['C_3'][2] * (2 ** (-1. / 6.)))))
+                tab2 = sym_table(ctx, ['C_3'], tag='b') if 'tag' in sym_table.__code__.co_varnames else None
+                if tab2 is not None:
+                    RU.UFF4MOF = tab2
+                    eps3, sig3 = RU.pair_coeffs('C_3')
+                    ctx.require('pair coefficients follow the table in force at the time of the call (re-parameterised row)',
+                                AND(EQ(eps3, tab2['C_3'][3]), EQ(sig3, tab2['C_3'][2] * (2 ** (-1. / 6.)))))
             else:
                 tab = sym_table(ctx, names)
                 RU.UFF4MOF = tab
